@@ -2,6 +2,7 @@ import ConfModel.Driver.Common
 import ConfModel.Model.DataTracer
 import ConfModel.Model.DataTracerSeg
 import ConfModel.Model.H2Body
+import ConfModel.Model.H2DataFrame
 import ConfModel.Spec.Envelopes
 import ConfModel.Model.Builder
 import ConfModel.Spec.Handoff
@@ -343,12 +344,31 @@ structure H2Life where
   ops : List HOp := []
   reqEnded : Option EndErr := none
   respEnded : Option EndErr := none
+  brokenQ : Bool := false   -- the request direction's frame tracer met a frame the framer rejects
+  brokenP : Bool := false
+  padded : Nat := 0         -- DATA frames with the PADDED flag that reached a tracer
+
+/-- a DATA frame of the input as the sender describes it: data `x`, PADDED flag, padding octets `padx` -/
+def h2PData (j : Json) : PData :=
+  { data := unhex (str (field j "x")), pad := if bool (field j "padded") then some (unhex (str (field j "padx"))) else none }
+
+/-- the bytes a DATA frame contributes to the body.  `wire = true`: what the code is given — the frame
+as it is on the wire (`PData.wire`: Pad Length octet, data, padding), through the model of
+`parseDataFrame` (`DFrame.data`).  `wire = false`: the specification's reading — the data. -/
+def h2Data (wire : Bool) (j : Json) : Option Bytes :=
+  if wire then (h2PData j).wire.data else some (h2PData j).data
 
 /-- what the connection tracer does with the frames of stream `id`, in wire order (`handleFrame`) -/
-def h2Frame (id : Nat) (l : H2Life) (j : Json) : H2Life :=
+def h2Frame (wire : Bool) (id : Nat) (l : H2Life) (j : Json) : H2Life :=
   let d := str (field j "d")
   let t := str (field j "t")
   let es := bool (field j "es")
+  -- `http2FrameTracer.broken`: nothing of that direction is looked at any more
+  if (d == "q" && l.brokenQ) || (d == "p" && l.brokenP) then l else
+  if t == "D" && (h2Data wire j).isNone then
+    (if d == "q" then { l with brokenQ := true } else { l with brokenP := true }) else
+  let body := (h2Data wire j).getD []
+  let pd := if bool (field j "padded") then 1 else 0
   if t == "G" then
     if l.opened && !l.closed && nat (field j "last") < id then
       { l with closed := true, ops := l.ops ++ [.respEnd], respEnded := some .other } else l
@@ -362,7 +382,7 @@ def h2Frame (id : Nat) (l : H2Life) (j : Json) : H2Life :=
     else if es then { l with ops := l.ops ++ [.reqEnd], reqEnded := if l.reqEnded.isSome then l.reqEnded else some .nil } else l
   | "q", "D" =>
     if !l.opened || l.closed then l else
-    let l := { l with ops := l.ops ++ [.reqData (unhex (str (field j "x")))] }
+    let l := { l with ops := l.ops ++ [.reqData body], padded := l.padded + pd }
     if es then { l with ops := l.ops ++ [.reqEnd], reqEnded := if l.reqEnded.isSome then l.reqEnded else some .nil } else l
   | "q", "R" =>
     if !l.opened || l.closed then l else
@@ -373,7 +393,7 @@ def h2Frame (id : Nat) (l : H2Life) (j : Json) : H2Life :=
     if es then { l with closed := true, ops := l.ops ++ [.respEnd], respEnded := some .nil } else l
   | "p", "D" =>
     if !l.opened || l.closed then l else
-    let l := if l.gotResp then { l with ops := l.ops ++ [.respData (unhex (str (field j "x")))] } else l
+    let l := if l.gotResp then { l with ops := l.ops ++ [.respData body], padded := l.padded + pd } else l
     if es then { l with closed := true, ops := l.ops ++ [.respEnd], respEnded := some .nil } else l
   | "p", "R" =>
     if !l.opened || l.closed then l else
@@ -401,15 +421,21 @@ def handleH2 (inp impl : Json) : Verdict :=
   -- the traced stream: the one the first request HEADERS opens
   let sid := match frames.find? (fun f => str (field f "d") == "q" && str (field f "t") == "H") with
     | some f => nat (field f "id") | none => 1
-  let l := frames.foldl (h2Frame sid) {}
   -- the script ends with Close: the loss of the connection ends a stream that is still open
   let hasClose := (arr (field inp "calls")).any (fun c => match arr c with | k :: _ => str k == "c" | [] => false)
-  let clientLoss := !isServer && l.opened && !l.closed && hasClose
-  let reqEndedBefore := l.reqEnded.isSome
-  let l := if l.opened && !l.closed && hasClose then
-      (if isServer then { l with closed := true, ops := l.ops ++ [.respEnd], respEnded := some .other }
-       else { l with closed := true, ops := l.ops ++ [.reqAbort], reqEnded := if l.reqEnded.isSome then l.reqEnded else some .other })
-    else l
+  let life := fun (wire : Bool) =>
+    let l := frames.foldl (h2Frame wire sid) {}
+    let clientLoss := !isServer && l.opened && !l.closed && hasClose
+    let reqEndedBefore := l.reqEnded.isSome
+    let l := if l.opened && !l.closed && hasClose then
+        (if isServer then { l with closed := true, ops := l.ops ++ [.respEnd], respEnded := some .other }
+         else { l with closed := true, ops := l.ops ++ [.reqAbort], reqEnded := if l.reqEnded.isSome then l.reqEnded else some .other })
+      else l
+    (l, clientLoss, reqEndedBefore)
+  -- the code's view: frames as they are on the wire, DATA payloads through the model of parseDataFrame
+  let (l, clientLoss, reqEndedBefore) := life true
+  -- the specification's view: the body of a direction is the DATA of its frames, whatever their padding
+  let (ls, _, _) := life false
   let qe := l.reqEnded.getD .nil
   let pe := l.respEnded.getD .nil
   -- a response that never started has no tracer yet: `responseTracer.builder == nil`, nothing to flush
@@ -421,15 +447,15 @@ def handleH2 (inp impl : Json) : Verdict :=
   let qEv := implEvents.filter (fun (e : String) => e.startsWith "q")
   let pEv := implEvents.filter (fun (e : String) => e.startsWith "p")
   -- C14's specification on the bytes of each direction that arrived before the stream was gone
-  let qb := (reqBytes l.ops).flatten
-  let pb := (respBytes l.ops).flatten
-  let specQ := (numberEvs 0 (specEvents l.cq qb)).map (render "q") ++ (match l.reqEnded with | some e => [render "q" (.bodyEnd e)] | none => [])
-  let specP := (numberEvs 0 (specEvents l.cp pb)).map (render "p") ++ (match l.respEnded with | some e => [render "p" (.bodyEnd e)] | none => [])
+  let qb := (reqBytes ls.ops).flatten
+  let pb := (respBytes ls.ops).flatten
+  let specQ := (numberEvs 0 (specEvents ls.cq qb)).map (render "q") ++ (match ls.reqEnded with | some e => [render "q" (.bodyEnd e)] | none => [])
+  let specP := (numberEvs 0 (specEvents ls.cp pb)).map (render "p") ++ (match ls.respEnded with | some e => [render "p" (.bodyEnd e)] | none => [])
   let transparent := bool (field impl "transparent")
   -- Loss of the connection on the client side (`cancelAll`, client branch) ends the stream with
   -- RequestBodyEnd(err) + RequestCanceled and does not touch the response tracer: as in C15's
   -- Spec.msgsOK, the cut remainder of the response need not be reported when the stream ends that way.
-  let specPcomplete := (unfinishedSpec l.cp pb).map (render "p")
+  let specPcomplete := (unfinishedSpec ls.cp pb).map (render "p")
   let pOk := pEv == specP || (clientLoss && pEv == specPcomplete)
   -- F33 (known finding): … and it adds RequestBodyEnd(err) even when the request had already ended (the code
   -- says so itself: "TODO: We shouldn't add RequestBodyEnd event if the trace already has an event of that
@@ -449,7 +475,7 @@ def handleH2 (inp impl : Json) : Verdict :=
     model := toJson mEvents,
     cls := if secondEnd then "h2:client-connection-loss-after-request-end" else "h2:" ++ (if l.reqEnded == some .nil && l.respEnded.isSome then "request-ends-first"
                      else if l.respEnded.isSome then "response-ends-first" else "request-aborted") ++
-           (if l.cq.isStream then ":" ++ tailName (parse qb).2 else ""),
+           (if l.cq.isStream then ":" ++ tailName (parse qb).2 else "") ++ (if l.padded > 0 then ":padded-data-frames" else ""),
     why := if holds then "" else
       if onlyF33 then s!"F33: second request body end — the request had ended (END_STREAM) when the connection was lost on the client side, cancelAll added RequestBodyEnd again: {implEvents}"
       else if !transparent then "not transparent: " ++ str (field impl "viol")
